@@ -535,13 +535,42 @@ def digitsNat (d : Bytes) : Nat := d.foldl (fun a c => a * 10 + (c - 48)) 0
 def verString (a b c : Bytes) (pre : Option Bytes) : Bytes :=
   118 :: (a ++ 46 :: (b ++ 46 :: (c ++ (match pre with | none => [] | some p => 45 :: p))))
 
-theorem digitsVal_digits (d : Bytes) (acc : Nat) (h : ∀ c, c ∈ d → isDigit c = true) :
-    digitsVal d acc = some (d.foldl (fun a c => a * 10 + (c - 48)) acc) := by
+def digitsFold (d : Bytes) (acc : Nat) : Nat := d.foldl (fun a c => a * 10 + (c - 48)) acc
+
+theorem digitsFold_ge (d : Bytes) (acc : Nat) : acc ≤ digitsFold d acc := by
   induction d generalizing acc with
-  | nil => rfl
-  | cons c d ih =>
+  | nil => simp [digitsFold]
+  | cons c r ih =>
+    have := ih (acc * 10 + (c - 48))
+    simp only [digitsFold, List.foldl_cons] at this ⊢
+    omega
+
+theorem parseUint_digits (d : Bytes) (n : Nat) (h : ∀ c, c ∈ d → isDigit c = true) :
+    (parseUint d n = .ok (digitsFold d n) ∧ digitsFold d n ≤ maxUint64) ∨
+    (parseUint d n = .range ∧ digitsFold d n > maxUint64) ∨ (d = [] ∧ parseUint d n = .ok n) := by
+  induction d generalizing n with
+  | nil => exact Or.inr (Or.inr ⟨rfl, rfl⟩)
+  | cons c r ih =>
     have hc := h c (List.mem_cons_self ..)
-    simp [digitsVal, hc, ih _ (fun x hx => h x (List.mem_cons_of_mem _ hx))]
+    have hr : ∀ x, x ∈ r → isDigit x = true := fun x hx => h x (List.mem_cons_of_mem _ hx)
+    simp only [parseUint, hc, Bool.not_true, Bool.false_eq_true, if_false]
+    have hge := digitsFold_ge r (n * 10 + (c - 48))
+    have hfold : digitsFold (c :: r) n = digitsFold r (n * 10 + (c - 48)) := by simp [digitsFold]
+    by_cases h1 : n ≥ maxUint64 / 10 + 1
+    · simp only [h1, if_true]
+      refine Or.inr (Or.inl ⟨trivial, ?_⟩)
+      rw [hfold]; simp only [maxUint64] at h1 ⊢; omega
+    · simp only [h1, if_false]
+      by_cases h2 : n * 10 + (c - 48) > maxUint64
+      · simp only [h2, if_true]
+        exact Or.inr (Or.inl ⟨trivial, by rw [hfold]; omega⟩)
+      · simp only [h2, if_false]
+        rcases ih (n * 10 + (c - 48)) hr with ⟨a, b⟩ | ⟨a, b⟩ | ⟨a, b⟩
+        · exact Or.inl ⟨by rw [a, hfold], by rw [hfold]; exact b⟩
+        · exact Or.inr (Or.inl ⟨a, by rw [hfold]; exact b⟩)
+        · subst a
+          refine Or.inl ⟨by rw [b, hfold]; simp [digitsFold], ?_⟩
+          rw [hfold]; simp only [digitsFold, List.foldl_nil]; omega
 
 theorem atoi_digits (d : Bytes) (h : IsDigits d) :
     atoi d = if digitsNat d > maxInt64 then (maxInt64 : Int) else (digitsNat d : Int) := by
@@ -553,15 +582,21 @@ theorem atoi_digits (d : Bytes) (h : IsDigits d) :
     simp only [isDigit, Bool.and_eq_true, decide_eq_true_eq] at hc
     have h43 : c ≠ 43 := by omega
     have h45 : c ≠ 45 := by omega
-    have hv := digitsVal_digits (c :: r) 0 hd
     have hs : signSplit (c :: r) = (false, c :: r) := by
       unfold signSplit
       split
       · rename_i heq; simp at heq; exact absurd heq.1 h43
       · rename_i heq; simp at heq; exact absurd heq.1 h45
       · rfl
-    simp only [atoi, hs, List.isEmpty_cons, Bool.false_eq_true, if_false, hv, digitsNat]
-    rfl
+    have hfold : digitsFold (c :: r) 0 = digitsNat (c :: r) := rfl
+    simp only [atoi, hs, List.isEmpty_cons, Bool.false_eq_true, if_false]
+    rcases parseUint_digits (c :: r) 0 hd with ⟨a, b⟩ | ⟨a, b⟩ | ⟨a, _⟩
+    · rw [a, hfold]
+    · rw [a]
+      rw [hfold] at b
+      have : digitsNat (c :: r) > maxInt64 := by simp only [maxUint64, maxInt64] at b ⊢; omega
+      simp [this]
+    · cases a
 
 theorem digit_ne (c : Nat) (h : isDigit c = true) : c ≠ 45 ∧ c ≠ 46 := by
   simp only [isDigit, Bool.and_eq_true, decide_eq_true_eq] at h; omega
